@@ -32,7 +32,7 @@ echo "confirm: demo_without_patch_exit=$nopatch build=$build existing_tests_exit
 echo "== run check on /repo with mutant"
 git -C /repo apply $D/patch.diff || { echo "cannot apply to /repo"; exit 2; }
 (cd /verif && ./check $P --tier quick > /tmp/evalmut-$NAME.log 2>&1); code=$?
-git -C /repo checkout -- . 
+git -C /repo apply -R $D/patch.diff
 grep -E "^(VIOLATION|DRIFT|OK|INCONCLUSIVE|KNOWN|MODEL)" /tmp/evalmut-$NAME.log | cut -c1-300 | head -8
 echo "check exit=$code"
 mkdir -p /verif/seeded/$NAME
